@@ -112,4 +112,22 @@ vpv_cell!(#[kani::stub(std::time::Instant::elapsed, stub_elapsed)] #[kani::stub(
     first && !second && !third && cb.state() == State::HalfOpen
 });
 
-vpv_replay_table!(c45_new, c45_allow_request, c45_record_success, c45_record_failure, c45_single_probe);
+
+// bounded stand-in for the lifting "opens after EXACTLY `threshold` consecutive failures" (the unbounded statement follows from the
+// step cells by induction on the counter): from a fresh breaker, k <= 4 failures, thresholds 1..=4
+vpv_cell!(#[kani::stub(std::time::Instant::elapsed, stub_elapsed)] #[kani::stub(std::time::Instant::now, stub_now)] #[kani::unwind(6)]
+  c45_opens_after_exactly_threshold, "C45/record_failure^k/fresh breaker opens after exactly `threshold` consecutive failures (threshold 1..=4)",
+  (threshold: u32), {
+    if threshold == 0 || threshold > 4 { return true; }
+    let cb = CircuitBreaker::new(CircuitBreakerConfig { failure_threshold: threshold, reset_timeout: Duration::from_secs(30) });
+    let mut k = 0u32; let mut ok = true;
+    while k < 4 {
+        ok = ok && (cb.state() == State::Closed) == (k < threshold);
+        cb.record_failure();
+        k += 1;
+        ok = ok && (cb.state() == State::Open) == (k >= threshold);
+    }
+    ok
+});
+
+vpv_replay_table!(c45_opens_after_exactly_threshold, c45_new, c45_allow_request, c45_record_success, c45_record_failure, c45_single_probe);
